@@ -12,7 +12,7 @@ use std::path::{Path, PathBuf};
 use std::sync::Arc;
 
 pub fn count(tier: Tier) -> u64 {
-    tier.pick(96, 600)
+    tier.pick(96, 3000)
 }
 
 pub fn gen(seed: u64, tier: Tier, k: u64) -> Value {
